@@ -24,6 +24,10 @@ def int_configs(tier):
             out.append(("int", w, enc, False))
             if w % 8 == 0:
                 out.append(("int", w, enc, True))
+    # integer fields whose encoding lists context calibrators none of which ever applies (and no default): the values stay the integers
+    for w in (1, 8, 33, 53, 54, 64, 72, 256):
+        for enc in ("unsigned", "twosComplement"):
+            out.append(("int", w, enc + "+ctx-never", False))
     return out
 
 
@@ -45,6 +49,10 @@ def float_configs():
 def ptype_for(cfg, i):
     fam, w, enc, lsb = cfg
     if fam == "int":
+        if enc.endswith("+ctx-never"):
+            from mc.spec import Cmp, CtxCal, Poly
+            return PType(f"T{i}", "Integer", IntEnc(w, enc[:-10], lsb, ctx_cals=(CtxCal((Cmp("VERSION", "==", "5"),), Poly(((1.0, 0), (2.0, 1)))),
+                                                                                  CtxCal((Cmp("PKT_APID", ">", "3000"),), Poly(((0.5, 1),))))))
         return PType(f"T{i}", "Integer", IntEnc(w, enc, lsb))
     return PType(f"T{i}", "Float", FloatEnc(w, enc, lsb))
 
@@ -289,7 +297,7 @@ def run(ctx):
     coverage = {
         "programs": tally.programs,
         "exhaustive": True,
-        "bound": ("integers: widths 1..72, 80, 96, 100, 127, 128, 129, 200, 256, 4096, 14296, 16384, 65408 x {unsigned, signed, twosComplement} x {MSB first, LSB first for whole-byte widths} x "
+        "bound": ("integers: widths 1..72, 80, 96, 100, 127, 128, 129, 200, 256, 4096, 14296, 16384, 65408 x {unsigned, signed, twosComplement} x {MSB first, LSB first for whole-byte widths} (+ widths 1, 8, 33, 53, 54, 64, 72, 256 with context calibrators that never apply and no default) x "
                   f"bit offsets 0..7 x (ALL 2^w patterns for w <= {12 if ctx.quick else 16}, else boundary/walking/alternating/index family) x "
                   "neighbour fill {0,1}; floats: binary16 ALL 65536 patterns, binary32/64 every exponent x mantissa family + walking bits + "
                   "specials, MIL-STD-1750A all 256 exponents x ~60 mantissas, both byte orders, also under the deprecated spellings 'MIL-1750A' / 'IEEE-754', "
